@@ -209,4 +209,68 @@ theorem C09_trace_clauses_all_commands {s : State} {k : Option Snap} (h : Reacha
     · simp [Tbl.getD, Tbl.find] at e
     · exact e
 
+/-! ### the two clauses that need more than the existence of the ledgers
+
+* `AddsLate`: a `load` puts back the snapshot's `m_time`, the frame clock of the moment of the `save`, which is `≤` — no
+  longer `=` — the present frame clock (`reachableSL_clocks`); a loaded wait may therefore be *overdue* (due `<` the
+  present frame time; the next drain resumes it), but every registration in the ledger still carries a due time `≥` the
+  `m_time` of its moment, so "never early" keeps its full meaning.
+* `Reset()` destroys everything exactly once: holds in the ledger of the state, which after a `load` is the snapshot's
+  history followed by what happened since.  What the ledger does **not** contain after a `load`: the records created
+  after the `save` and destroyed before or by the `load` (their ids are handed out again after the `load`, `nextTid` being
+  the snapshot's) — their exactly-once is the same theorem applied to the state just before the `load`
+  (`(killAllInsts s)`, i.e. the `Reset()` inside `load`), in *that* state's ledger. -/
+
+/-- **`AddsLate` and the clocks after any commands, trace level.**  Every state reached with `save`/`load` among the
+    commands has a timer ledger in which every wait was registered with a due time `≥` the frame time of that moment;
+    `scaledTime` is the clock of the last frame and the timer's `m_time` is `≤` it (`=` without `load`). -/
+theorem C09_trace_adds_late_all_commands {s : State} {k : Option Snap} (h : ReachableSL s k) :
+    (∃ ops, IsLedger s ops ∧ (∀ x ∈ (TRun.run {} ops).returned, x.1.2 ≤ x.2)) ∧
+      s.timer.mtime ≤ s.lastClock ∧ s.scaled = s.lastClock ∧ s.lastClock ≤ s.clock := by
+  obtain ⟨ops, hh⟩ := (reachableSL_timer_history h).1
+  have hc := reachableSL_clocks h
+  exact ⟨⟨ops, ⟨by rw [timerRun_of_run]; exact hh.run, hh.late⟩, C06_never_early ops⟩, hc.mt, hc.sc, hc.lc⟩
+
+/-- **`Reset()` is clean and destroys every record exactly once, after any commands.**  After `director.Reset()` in any
+    state reached with `save`/`load` among the commands (unless out of fuel): no thread record, no instance, no queued
+    event, empty timer and listener tables, all host-level invariants; and in the life ledgers of that state (after a
+    `load`: the snapshot's history followed by what happened since) every thread id and every instance id created has
+    exactly one destruction record. -/
+theorem C09_trace_reset_exactly_once_all_commands {s : State} {k : Option Snap} (h : ReachableSL s k) :
+    (hostReset s).outOfFuel = true ∨
+      (((hostReset s).threads = [] ∧ (hostReset s).insts = [] ∧ (hostReset s).events = [] ∧
+        (hostReset s).timer.elems = [] ∧ (hostReset s).notify = [] ∧ (hostReset s).waitFor = [] ∧
+        HInv3 (hostReset s)) ∧
+       ∃ opsT opsI : List POp, pRun pool0T opsT = some (absT (hostReset s)) ∧
+        pRun pool0I opsI = some (absI (hostReset s)) ∧
+        (∀ t ∈ created pool0T opsT, opsT.count (POp.del t) = 1) ∧
+        (∀ i ∈ created pool0I opsI, opsI.count (POp.del i) = 1)) := by
+  have hr : ReachableSL (HostOp.apply s .resetDirector) k := .step .resetDirector h trivial
+  have h3 : Ok (hostReset s) (HInv3 (hostReset s)) := (reachableSL_hinv3 hr).1
+  rcases (reachableSL_hinv3 h).1 with ho | hi
+  · exact Or.inl ((hostReset_hr s).oof ho)
+  · rcases killAllInsts_empty hi with ho | ⟨p0, p1, p2, p3, p4, p5⟩
+    · exact Or.inl ho
+    · rcases h3 with ho | q
+      · exact Or.inl ho
+      · refine Or.inr ⟨⟨p0, p1, p2, p3, p4, p5, q⟩, ?_⟩
+        obtain ⟨_, _, ⟨opsT, hT⟩, ⟨opsI, hI⟩⟩ := (reachableSL_ledgers hr).1
+        refine ⟨opsT, opsI, hT, hI, ?_, ?_⟩
+        · intro t hc
+          exact all_freed_exactly_once pool0T_good hT
+            (by unfold absT; rw [show (HostOp.apply s .resetDirector).threads = [] from p0]; rfl) t (Or.inr hc)
+        · intro i hc
+          exact all_freed_exactly_once pool0I_good hI
+            (by unfold absI; rw [show (HostOp.apply s .resetDirector).insts = [] from p1]; rfl) i (Or.inr hc)
+
+/-- non-vacuity: in the demo the loaded timer's `m_time` (0, the frame of the `save`) is behind the present frame clock (5),
+    the loaded wait is already due; `Reset()` of the loaded state has fuel left and removes the two loaded records -/
+example :
+    (load (killAllInsts (runOps (runOps {} demoSL) [.step 5, .takeOut])) (save (runOps {} demoSL))).timer.mtime = 0 ∧
+    (load (killAllInsts (runOps (runOps {} demoSL) [.step 5, .takeOut])) (save (runOps {} demoSL))).lastClock = 5 ∧
+    (load (killAllInsts (runOps (runOps {} demoSL) [.step 5, .takeOut])) (save (runOps {} demoSL))).threads.map (·.1) = [100, 101] ∧
+    (hostReset (load (killAllInsts (runOps (runOps {} demoSL) [.step 5, .takeOut])) (save (runOps {} demoSL)))).outOfFuel = false ∧
+    (hostReset (load (killAllInsts (runOps (runOps {} demoSL) [.step 5, .takeOut])) (save (runOps {} demoSL)))).threads = [] := by
+  decide +kernel
+
 end Morfuse.Sched
